@@ -1,4 +1,5 @@
 """Rules shared by several property modules."""
+from .lib import query as q
 
 DERIVED = [
     ('payload::Message', 'core::cmp::PartialEq', 'eq'), ('payload::Message', 'core::clone::Clone', 'clone'),
@@ -210,3 +211,22 @@ def check_helpers(ctx, f, rep, rule, which):
                     good = good and ((len(picks) == 1 and q.cond_truth(picks[0]) is True) or via_filter)
         rep.check(good and n >= 2, rule, b.nname, 'the reservoir only ever takes members for which picker(member) was true in '
                   'that iteration', construct='helper')
+
+
+def scratch_cleared(ctx, f, rep, rule):
+    """Foca.updates_buf is scratch space of one handle_data call: on every path it is cleared before it is filled or
+    taken, so what apply_many drains is exactly what *this* datagram carried (a payload that was decoded but discarded -
+    inactive sender - cannot resurface with a later datagram)."""
+    hd = f.fn('Foca::handle_data')
+    n = 0
+    for p in ctx.paths(f, hd, 'none'):
+        for i, e in enumerate(p.events):
+            uses = (e['kind'] == 'write' and e['place'] == q.self_field('updates_buf') and e.get('via') == 'mem::take') or \
+                   (e['kind'] == 'call' and e['res'] == 'alloc::vec::Vec::push' and e['args'][0] == ('ref', q.self_field('updates_buf'), True))
+            if uses:
+                n += 1
+                cl = [x for x in p.events[:i] if x['kind'] == 'call' and x['res'] == 'alloc::vec::Vec::clear'
+                      and x['args'][0] == ('ref', q.self_field('updates_buf'), True)]
+                rep.check(bool(cl), rule, hd.nname, 'updates_buf is cleared before being filled or taken in the same call',
+                          site=e['span'], construct='scratch-cleared')
+    rep.floor(rule, n, 2, 'uses of updates_buf')
